@@ -10,6 +10,7 @@ CONSTANTS
   MaxRules = 3
   MaxStatus = 0
   MaxRuns = 2
+  MaxReent = 0
   RulesInRun = TRUE
   Export = TRUE
   Variant = "asRequired"
